@@ -267,10 +267,25 @@ func execC14(sc *Scenario, rep Replica) c14Exec {
 	for _, f := range sc.Files {
 		Budget += 300 * int64(len(f.Data))
 	}
-	for _, op := range sc.Ops {
+	for oi, op := range sc.Ops {
 		o := w.RunOp(op, Budget)
 		ex.obs = append(ex.obs, o)
 		ex.steps += o.Steps
+		if rep.History && op.Kind == "newtemplate" && o.Kind == "ok" {
+			// earlier requests on THIS Template too: every page the scenario is going to render has
+			// been rendered before, with somebody else's values, with the data in its other native
+			// representation, and without data
+			for _, later := range sc.Ops[oi+1:] {
+				if later.Kind != "string" {
+					continue
+				}
+				if later.Data != nil {
+					w.RunOp(Op{Kind: "string", Name: later.Name, Data: otherValues(later.Data)}, Budget)
+					w.RunOp(Op{Kind: "string", Name: later.Name, Data: AltData(later.Data)}, Budget)
+				}
+				w.RunOp(Op{Kind: "response", Name: later.Name, Data: nil}, Budget)
+			}
+		}
 	}
 	if os.Getenv("TWSIM_DEBUG") != "" {
 		for i, o := range ex.obs {
@@ -320,6 +335,12 @@ func c14Prelude(w *World, sc *Scenario, soak int) {
 			pw.RunOp(op, Budget)
 			pw.RunOp(Op{Kind: "string", Name: op.Name, Data: nil}, Budget)
 			pw.RunOp(Op{Kind: "response", Name: op.Name, Data: nil}, Budget)
+			if op.Data != nil {
+				// the same page with the data in its other native representation (structs for maps and
+				// back) and with other values: what an earlier request of another user looked like
+				pw.RunOp(Op{Kind: "string", Name: op.Name, Data: AltData(op.Data)}, Budget)
+				pw.RunOp(Op{Kind: "string", Name: op.Name, Data: otherValues(op.Data)}, Budget)
+			}
 		case "evalstr":
 			pw.RunOp(op, Budget)
 		}
@@ -351,6 +372,37 @@ func c14Prelude(w *World, sc *Scenario, soak int) {
 		}
 	}
 	simrt.SetFS(w.FS)
+}
+
+// otherValues returns the same data with other scalar values (and objects reduced to their
+// capitalised keys): an earlier request with somebody else's data.
+func otherValues(d *Val) *Val {
+	out := &Val{T: d.T, K: append([]string{}, d.K...)}
+	for _, v := range d.V {
+		switch v.T {
+		case "int":
+			v = VInt(int(v.I) + 41)
+		case "str":
+			v = VStr(v.S + "~other")
+		case "float":
+			v = VFloat(v.F + 0.625)
+		case "bool":
+			v = VBool(!v.B)
+		case "map":
+			nv := Val{T: "map"}
+			for i, k := range v.K {
+				if k != "" && k[0] >= 'A' && k[0] <= 'Z' {
+					nv.K = append(nv.K, k)
+					nv.V = append(nv.V, v.V[i])
+				}
+			}
+			if len(nv.K) > 0 {
+				v = nv
+			}
+		}
+		out.V = append(out.V, v)
+	}
+	return out
 }
 
 func firstDiff(a, b []Obs) int {
